@@ -79,6 +79,22 @@ func c03(c *Ctx) {
 	c.Guarded("discover/chksum1", bt, rec, gs(GP("("+u32("[16:]")+" == litefs.WALChecksum(@@)#0)", true)), 1, "a frame is recorded only if checksum-1 equals the running checksum", "a torn or overwritten frame ends the valid prefix")
 	c.Guarded("discover/chksum2", bt, rec, gs(GP("("+u32("[20:]")+" == litefs.WALChecksum(@@)#1)", true)), 1, "a frame is recorded only if checksum-2 equals the running checksum", "")
 	c.walCommitScanPageNonzero("discover")
+	{
+		rfa := `internal\.ReadFullAt\(.*\)#1`
+		notEOF := G(`^\(`+rfa+` == io\.EOF\)$|^\(io\.EOF == `+rfa+`\)$|^errors\.Is\(`+rfa+`, io\.EOF\)$`, false)
+		notUEOF := G(`^\(`+rfa+` == io\.ErrUnexpectedEOF\)$|^\(io\.ErrUnexpectedEOF == `+rfa+`\)$|^errors\.Is\(`+rfa+`, io\.ErrUnexpectedEOF\)$`, false)
+		realErr := func(in ssa.Instruction) bool {
+			r, ok := in.(*ssa.Return)
+			if !ok || len(r.Results) != 6 {
+				return false
+			}
+			e := p.Render(returnedValue(r, 5))
+			return e != "nil" && e != "litefs.errNoTransaction"
+		}
+		c.GuardedPaths("discover/short-read-is-no-transaction", bt, realErr, [][]*Guard{{notEOF}, {notUEOF}}, 1,
+			"the scan reports a real error (which stops the node) only for a read error that is neither io.EOF nor io.ErrUnexpectedEOF: a WAL that ends inside a frame holds no transaction",
+			"a writer killed between the frame header and the page leaves a partial frame: releasing the write lock must find no transaction, not exit the node")
+	}
 	// checksum chaining
 	wcs := Instrs(c.F(bt), p.PlainCalls("litefs.WALChecksum"))
 	chainDesc := "the running checksum is WALChecksum(order, prev, frame[:8]) then (.., frame[24:]), seeded from wal.chksum1/2 and carried from frame to frame"
